@@ -22,7 +22,7 @@ import (
 type tcase struct {
 	format string
 	in     []byte
-	kind   string // full | trunc | trail:<n>
+	kind   string // full | trunc | trail:<n> | bad | any
 	src    string
 	obs    string
 }
@@ -225,7 +225,8 @@ func main() {
 	if cfg.Thorough() {
 		nRandom, truncLimit = 1500, 200
 	}
-	thorough = cfg.Thorough()
+	ties := readTies()
+	deepOf := func(f string) bool { t := ties[tieFormat(f)]; return !(t.facts && t.text) }
 	want := map[string]bool{}
 	for _, a := range cfg.Args {
 		want[a] = true
@@ -234,6 +235,22 @@ func main() {
 	for _, f := range modelledFormats() {
 		if len(want) > 0 && !want[f.name] {
 			continue
+		}
+		// the tie of this format's model to the source of this run (ties.go)
+		deep := deepOf(f.name)
+		if deep {
+			o.Stat("tie_correspondence_only_"+f.name, 1)
+		} else {
+			o.Stat("tie_regenerated_"+f.name, 1)
+		}
+		thorough = cfg.Thorough() || deep
+		nRandom, truncLimit := nRandom, truncLimit
+		if thorough {
+			nRandom, truncLimit = 1500, 200
+		}
+		cs = append(cs, sweepCases(f.name)...)
+		if f.name == "asn1_ber" {
+			cs = append(cs, berConsCases(r.Fork(), nRandom/4+10, truncLimit)...)
 		}
 		// inputs that are not an encoding of anything: must be a decode error
 		for _, b := range f.bad {
@@ -299,11 +316,16 @@ func main() {
 		if len(want) == 0 {
 			w2 = map[string]bool{"json": true, "jsonl": true}
 		}
-		nj := 60
-		if cfg.Thorough() {
-			nj = 1500
+		nj, tl := 60, truncLimit
+		if deepOf("json") {
+			o.Stat("tie_correspondence_only_json", 1)
+		} else {
+			o.Stat("tie_regenerated_json", 1)
 		}
-		cs = append(cs, jsonCases(r, nj, w2, truncLimit)...)
+		if cfg.Thorough() || deepOf("json") {
+			nj, tl = 1500, 200
+		}
+		cs = append(cs, jsonCases(r, nj, w2, tl)...)
 	}
 	evalAll(cs)
 	nText := 40
